@@ -12,6 +12,7 @@
 //!
 //! stdin:  policy none|random <limit>     init <op> (repeatable)     tick <n>
 //!         t1 <op>     park <n> (0 = dry run: count the step points)     t2 <op> (repeatable)     final <op> (repeatable)
+//!         t2par <op> (repeatable): like t2, but all of them run concurrently with one another (three or more clients)
 //! ops:    get k | set k v cas ttl | delete k cas | add k v | replace k v | append k v | prepend k v | incr k d | decr k d | flush delay
 //! stdout: steps <n> <trace>     cas-issued <CAS values acknowledged by the two threads' mutations>     concurrent t1=.. t2=.. final=..     seq12 ..     seq21 ..     completes true|false
 use memcrs::cache::cache::{impl_details::CacheImplDetails, Cache, CacheMetaData, CachePredicate, CacheReadOnlyView, KeyType, Record, RemoveIfResult, SetStatus};
@@ -134,7 +135,7 @@ fn run_op(store: &Arc<MemcStore>, op: &[String]) -> String {
     }
 }
 
-struct Scenario { policy: Option<u64>, init: Vec<Vec<String>>, ticks_after_init: u64, t1: Vec<String>, park: usize, t2: Vec<Vec<String>>, fin: Vec<Vec<String>> }
+struct Scenario { policy: Option<u64>, init: Vec<Vec<String>>, ticks_after_init: u64, t1: Vec<String>, park: usize, t2: Vec<Vec<String>>, t2par: bool, fin: Vec<Vec<String>> }
 
 fn build(policy: Option<u64>) -> (Arc<Ctl>, Arc<MemcStore>) {
     let ctl = Arc::new(Ctl::new());
@@ -201,7 +202,17 @@ fn concurrent(s: &Scenario) -> (String, bool) {
     let mut completes = true;
     let mut r2 = Vec::new();
     let mut released = false;
-    for op in &s.t2 {
+    if s.t2par {
+        // all of thread 2's commands run concurrently with one another (three or more clients)
+        let hs: Vec<_> = s.t2.iter().map(|op| { let (st2, op2) = (store.clone(), op.clone()); std::thread::spawn(move || run_op(&st2, &op2)) }).collect();
+        let mut n = 0;
+        while hs.iter().any(|h| !h.is_finished()) && n < 200 { std::thread::sleep(std::time::Duration::from_millis(1)); n += 1; }
+        if hs.iter().any(|h| !h.is_finished()) { ctl.release(); released = true; }
+        let mut n = 0;
+        while hs.iter().any(|h| !h.is_finished()) && n < 3000 { std::thread::sleep(std::time::Duration::from_millis(1)); n += 1; }
+        for h in hs { if h.is_finished() { r2.push(h.join().unwrap_or_else(|_| "panic".to_string())); } else { r2.push("BLOCKED".to_string()); completes = false; } }
+    }
+    for op in s.t2.iter().filter(|_| !s.t2par) {
         let (st2, op2) = (store.clone(), op.clone());
         let h2 = std::thread::spawn(move || run_op(&st2, &op2));
         let mut n = 0;
@@ -226,7 +237,7 @@ fn concurrent(s: &Scenario) -> (String, bool) {
 
 fn main() {
     let stdin = std::io::stdin();
-    let mut s = Scenario { policy: None, init: vec![], ticks_after_init: 0, t1: vec![], park: 0, t2: vec![], fin: vec![] };
+    let mut s = Scenario { policy: None, init: vec![], ticks_after_init: 0, t1: vec![], park: 0, t2: vec![], t2par: false, fin: vec![] };
     for l in stdin.lock().lines() {
         let l = l.unwrap();
         let w: Vec<String> = l.split_whitespace().map(|x| x.to_string()).collect();
@@ -238,6 +249,7 @@ fn main() {
             "t1" => s.t1 = w[1..].to_vec(),
             "park" => s.park = w[1].parse().unwrap(),
             "t2" => s.t2.push(w[1..].to_vec()),
+            "t2par" => { s.t2.push(w[1..].to_vec()); s.t2par = true; }
             "final" => s.fin.push(w[1..].to_vec()),
             _ => {}
         }
